@@ -146,8 +146,14 @@ def make_pattern(ctx, motif, rigid=None, translate=None, elements=None, position
     return pat
 
 
-def fl(x):
-    """concrete float of a value that must be unique on this path"""
+def fl(x, tol=1e-9):
+    """concrete float of a value that is constant (to within tol: inexact inverse cell matrices leave 1e-16*t residues) on
+    the whole region of the current path; raises Unsupported otherwise"""
+    if isinstance(x, Sym):
+        v = core.ENGINE.approx_value(x.e, tol)
+        if v is None:
+            raise core.Unsupported(f"value is not constant on the path region: {x.e}")
+        return float(v)
     return float(x)
 
 
